@@ -10,9 +10,11 @@
 
   All theorems hold for **every arithmetic context** `cx` (rounding is irrelevant to coherence).
   Hypotheses: `EnvOK` (a token listed in the bar's data has a price and a risk row), `EnvPos` (non-zero indices),
-  and on a bar change the new bar's data covers the tokens held.  One raise is excluded: the
-  `DemeterError("variable_delt < actual_debt_to_liquidate")` of `_do_liquidate`, which the code places after
-  the seizure of the collateral and before any cache reset (unreachable for exact arithmetic; never observed).
+  and on a bar change the new bar's data covers the tokens held.  No raise is excluded any more: the
+  `DemeterError("variable_delt < actual_debt_to_liquidate")` of `_do_liquidate` used to sit after the seizure of the
+  collateral and before the cache resets (and was reachable at exact collateral/debt ties under the 35-digit
+  rounding); since the repair it is checked before anything is changed, so whatever `update()` raises, it leaves a
+  coherent state.
 -/
 import Proofs.Lemmas.AaveLiqCoh
 import Mathlib.Tactic.NormNum
@@ -25,7 +27,7 @@ variable {cx : ACtx} {env : Env}
     collateral, change_collateral, end-of-bar liquidation), accepted or rejected, maps a coherent state to a
     coherent state. -/
 theorem C13_step_coherent (hE : EnvOK env) (hP : EnvPos env) (s : St) (hs : Good cx env s) (op : Op)
-    (hop : op ≠ .newBar) (hbad : (step cx env s op).1 ≠ .error .liqDebtExceeds) :
+    (hop : op ≠ .newBar) :
     Good cx env (step cx env s op).2 := by
   have lift : ∀ (m : M Unit), Good cx env (m s).2 → Good cx env (unitM m s).2 := by
     intro m h
@@ -39,16 +41,7 @@ theorem C13_step_coherent (hE : EnvOK env) (hP : EnvPos env) (s : St) (hs : Good
   | borrow t a => exact lift _ (inv_borrow hE t a s hs)
   | repay t a w c => exact lift _ (inv_repay t a w c s hs)
   | changeCollateral t c => exact lift _ (inv_changeCollateral t c s hs)
-  | update =>
-    refine lift _ (invE_liquidate hE hP s hs (fun e he hb => ?_))
-    rw [hb] at he
-    apply hbad
-    show (unitM (liquidate cx env) s).1 = _
-    unfold unitM mapM'
-    rcases hm : liquidate cx env s with ⟨r, s1⟩
-    rw [hm] at he
-    dsimp only at he
-    rw [he]
+  | update => exact lift _ (inv_liquidate hE hP s hs)
   | read v => exact readInv_good.readView v s hs
   | newBar => exact absurd rfl hop
 
@@ -72,7 +65,7 @@ theorem C13_read_eq_scratch (s : St) (hs : Good cx env s) (v : View) :
 inductive AaveReachable (cx : ACtx) : Env → St → Prop
   | init {env : Env} : EnvOK env → EnvPos env → AaveReachable cx env St.init
   | step {env : Env} {s : St} (op : Op) : AaveReachable cx env s → op ≠ .newBar →
-      (step cx env s op).1 ≠ .error .liqDebtExceeds → AaveReachable cx env (step cx env s op).2
+      AaveReachable cx env (step cx env s op).2
   | newBar {env env' : Env} {s : St} : AaveReachable cx env s → EnvOK env' → EnvPos env' →
       Covers env' s.supplies → Covers env' s.borrows → AaveReachable cx env' (step cx env' s .newBar).2
 
@@ -85,7 +78,7 @@ theorem good_init : Good cx env St.init :=
 theorem C13_coherent (s : St) (h : AaveReachable cx env s) : EnvOK env ∧ EnvPos env ∧ Good cx env s := by
   induction h with
   | init hE hP => exact ⟨hE, hP, good_init⟩
-  | step op _ hop hbad ih => exact ⟨ih.1, ih.2.1, C13_step_coherent ih.1 ih.2.1 _ ih.2.2 op hop hbad⟩
+  | step op _ hop ih => exact ⟨ih.1, ih.2.1, C13_step_coherent ih.1 ih.2.1 _ ih.2.2 op hop⟩
   | newBar _ hE hP c1 c2 ih => exact ⟨hE, hP, C13_newBar_coherent _ ih.2.2 c1 c2⟩
 
 /-- **the property**: after any such history, every derived view read from the market equals what is recomputed
@@ -100,23 +93,18 @@ def runOps (cx : ACtx) (env : Env) : St → List Op → St
   | s, op :: ops => runOps cx env (step cx env s op).2 ops
 
 /-- **read–write–read interleavings inside one bar**: from a coherent state, after any list of operations
-    (none of them the excluded raise), any view read equals the recomputation on the positions reached. -/
+    (accepted, rejected or raising), any view read equals the recomputation on the positions reached. -/
 theorem C13_interleaving (hE : EnvOK env) (hP : EnvPos env) (ops : List Op) : ∀ (s : St), Good cx env s →
     (∀ op ∈ ops, op ≠ .newBar) →
-    (∀ (pre : List Op) (op : Op) (post : List Op), ops = pre ++ op :: post →
-      (step cx env (runOps cx env s pre) op).1 ≠ .error .liqDebtExceeds) →
     ∀ v, (step cx env (runOps cx env s ops) (.read v)).1 =
       specView cx env (runOps cx env s ops).supplies (runOps cx env s ops).borrows v := by
   induction ops with
-  | nil => intro s hs _ _ v; exact (C13_read_eq_scratch s hs v).1
+  | nil => intro s hs _ v; exact (C13_read_eq_scratch s hs v).1
   | cons op ops ih =>
-    intro s hs hnb hbad v
+    intro s hs hnb v
     have h1 : Good cx env (step cx env s op).2 :=
-      C13_step_coherent hE hP s hs op (hnb op (List.mem_cons_self ..)) (hbad [] op ops rfl)
-    exact ih _ h1 (fun o ho => hnb o (List.mem_cons_of_mem _ ho))
-      (fun pre o post e => by
-        have := hbad (op :: pre) o post (by rw [e]; rfl)
-        exact this) v
+      C13_step_coherent hE hP s hs op (hnb op (List.mem_cons_self ..))
+    exact ih _ h1 (fun o ho => hnb o (List.mem_cons_of_mem _ ho)) v
 
 /-- the recomputed per-token supply value is `base × liquidity_index × price` (each product rounded by `cx`) -/
 theorem C13_supplies_value_formula (sup : AList String SupplyInfo) (vs : AList String Rat)
